@@ -747,6 +747,7 @@ type walker struct {
 	pkgKey  map[*pkgInfo]string
 	metas   map[*pkgInfo]*pkgMeta
 	recvArg *sym // receiver value for the next walkFunc of a method
+	walked  []string // handlers whose every declaration was found and whose body the walk really entered (top level)
 }
 
 // foreignPkg is another package of the repository's module, parsed so that calls into it can be followed.
@@ -2424,8 +2425,17 @@ func analyse(p *pkgInfo) (*walker, []*hinfo) {
 		if len(p.funcs[h]) == 0 {
 			w.unknownRow(p.files[0], "handler "+h+" not found in the package")
 		}
+		entered := len(p.funcs[h]) > 0
 		for _, fd := range p.funcs[h] {
+			if fd.Body == nil {
+				entered = false
+				w.unknownRow(fd, "handler "+h+" has no body in this package")
+			}
 			w.walkFunc(fd, nil)
+		}
+		if entered {
+			// marker for the Coq obligation C18_all_route_handlers_walked: "reads nothing" and "never walked" differ
+			w.walked = append(w.walked, h)
 		}
 		infos = append(infos, hi)
 	}
@@ -2461,6 +2471,14 @@ func emitReads(p *pkgInfo) {
 	fmt.Println("Definition table : list rrow := [")
 	fmt.Println(strings.Join(rows, ";\n"))
 	fmt.Println("].")
+	fmt.Println()
+	var wl []string
+	for _, h := range w.walked {
+		wl = append(wl, coqStr(h))
+	}
+	fmt.Println("(* handlers the walk really entered: every declaration of that name found, with a body, walked from the top with")
+	fmt.Println("   every resolvable callee (an unresolvable one is an unknown row of that handler in the table above) *)")
+	fmt.Println("Definition walked : list string := " + coqList(wl) + ".")
 	fmt.Println()
 	var hrows []string
 	for _, h := range infos {
